@@ -47,6 +47,9 @@ def table_purity(ctx, rule="R-pure-table", cells=None, T=None):
             # the memo write self._cache[name] = val is the one permitted store
             if sk.kind == "store" and sk.target in ("self._cache",):
                 ctx.holds(rule, construct, "memoisation store", where); n += 1; continue
+            # self.__dict__[name] = value binds the attribute `name` (what self.name = value does): a rebinding, not a write into shared storage
+            if sk.kind == "store" and sk.target in ("self.__dict__",):
+                ctx.holds(rule, construct, "attribute binding through the instance dictionary", where); n += 1; continue
             if shared and reach is not None:
                 hit = []
                 for l in shared:
